@@ -34,7 +34,7 @@ NOT_LEGALITY = ("radius", "Exact Value")
 FLOATS = ["flt", "half", "dec", "third", "big"]
 CLAUSES = ["inDie", "ratio", "area", "attached", "withinExtent", "sideOrder", "intraDisjoint", "interDisjoint",
            "hardCongruent", "fixedInPlace"]
-EXTRA = ["quick_long", "quick_wide", "quick_tall"]   # unequal same-side branches; very elongated dies (both orientations)
+EXTRA = ["quick_long", "quick_wide", "quick_tall", "quick_xratio"]   # unequal same-side branches; very elongated dies; hard shapes beyond the ratio limit
 UNIVERSES = {"quick": ["quick", "quick_multi"] + EXTRA, "thorough": ["thorough", "thorough_multi", "thorough_r3"] + EXTRA}
 NO_BRANCHES = ("quick_wide", "quick_tall")
 LOC2ROLE = {"TRUNK": "T", "NORTH": "N", "SOUTH": "S", "EAST": "E", "WEST": "W"}
@@ -326,11 +326,14 @@ def random_case(rng: random.Random) -> dict | None:
     nm = rng.randint(2, 4)
     net, placed = [], []
     for _ in range(nm):
+        kind = rng.choice(["soft", "soft", "hard", "hard", "fixed"])
+        # a hard / fixed module may be GIVEN with rectangles beyond the ratio limit (then nothing with that shape is legal)
+        any_ratio = kind != "soft" and rng.random() < 0.3
         for _try in range(60):
-            tw, th = rng.randint(2, min(9, xw)), rng.randint(2, min(9, yw))
+            tw, th = rng.randint(1 if any_ratio else 2, min(9, xw)), rng.randint(1 if any_ratio else 2, min(9, yw))
             x, y = x0 + rng.randint(0, xw - tw), y0 + rng.randint(0, yw - th)
             t = [x, y, x + tw, y + th]
-            if _ar_ok(t, rp, rq) and not any(_ov(t, r) for r in placed):
+            if (any_ratio or _ar_ok(t, rp, rq)) and not any(_ov(t, r) for r in placed):
                 break
         else:
             continue
@@ -345,13 +348,12 @@ def random_case(rng: random.Random) -> dict | None:
             lo = rng.randint(lo_t, hi_t - ln)
             b = {"N": [lo, t[3], lo + ln, t[3] + dp], "S": [lo, t[1] - dp, lo + ln, t[1]],
                  "E": [t[2], lo, t[2] + dp, lo + ln], "W": [t[0] - dp, lo, t[0], lo + ln]}[s]
-            if b[0] < 0 or b[1] < 0 or b[2] > dw or b[3] > dh or not _ar_ok(b, rp, rq):
+            if b[0] < 0 or b[1] < 0 or b[2] > dw or b[3] > dh or not (any_ratio or _ar_ok(b, rp, rq)):
                 continue
             if any(_ov(b, r) for r in placed) or any(_ov(b, r) for r in rects):
                 continue
             rects.append(b)
             roles.append(s)
-        kind = rng.choice(["soft", "soft", "hard", "hard", "fixed"])
         tot = sum((r[2] - r[0]) * (r[3] - r[1]) for r in rects)
         slack = rng.choice([0, 0, 1, 2, 3]) if kind == "soft" else 0
         slack = min(slack, tot - 1)
